@@ -453,12 +453,12 @@ package leveldb
 // O6: a memdb flush commits (journal number of the live journal, sequence number at freeze time) before the
 // frozen memdb and its journal are dropped.
 //@ func (*DB).memCompaction
-//@   props C04
+//@   props C04 C01
 //@   mode bv
 //@   at before call (*DB).compactionCommit#1
-//@     assert [C04:flush-record-carries-numbers] recHas(rec.hasRec, recJournalNum) && recHas(rec.hasRec, recSeqNum) && rec.journalNum == db.journalFd.Num && rec.seqNum == db.frozenSeq
+//@     assert [C01,C04:flush-record-carries-numbers] recHas(rec.hasRec, recJournalNum) && recHas(rec.hasRec, recSeqNum) && rec.journalNum == db.journalFd.Num && rec.seqNum == db.frozenSeq
 //@   at before call (*DB).dropFrozenMem#2
-//@     assert [C04:commit-before-journal-removal] calls("(*DB).compactionCommit") > old(calls("(*DB).compactionCommit"))
+//@     assert [C01,C04:commit-before-journal-removal] calls("(*DB).compactionCommit") > old(calls("(*DB).compactionCommit"))
 
 // O7: a write group is flushed (and synced when asked) to the journal before it is applied and acknowledged.
 //@ func (*DB).writeJournal
@@ -492,10 +492,10 @@ package leveldb
 // file number (no number already handed out is handed out again), the journal number and the sequence number that
 // journal replay starts from.
 //@ func (*session).recover
-//@   props C04
+//@   props C04 C01
 //@   mode bv
 //@   safety off
-//@   guarantees [C04:recovered-state-is-the-manifests-last-word] err == nil ==> (s.stNextFileNum == rec.nextFileNum && s.stJournalNum == rec.journalNum && s.stSeqNum == rec.seqNum)
+//@   guarantees [C01,C04:recovered-state-is-the-manifests-last-word] err == nil ==> (s.stNextFileNum == rec.nextFileNum && s.stJournalNum == rec.journalNum && s.stSeqNum == rec.seqNum)
 
 // Applying a batch to the write buffer: record i is entered under the batch's first sequence number plus i, with its
 // own kind, key and value (the same numbering the journal replay uses, below).
@@ -742,27 +742,27 @@ package leveldb
 // writes.
 //@ count decodeBatchToMem
 //@ func (*sessionRecord).setJournalNum
-//@   props C04
+//@   props C04 C01
 //@   mode bv
 //@   ensures recHas(p.hasRec, recJournalNum) && p.journalNum == num && recHas(p.hasRec, recSeqNum) == old(recHas(p.hasRec, recSeqNum)) && p.hasRec == (old(p.hasRec) | (1 << recJournalNum))
 //@   modifies p.hasRec, p.journalNum
 //@ func (*sessionRecord).setSeqNum
-//@   props C04 C19
+//@   props C04 C19 C01
 //@   mode bv
 //@   ensures recHas(p.hasRec, recSeqNum) && p.seqNum == num && recHas(p.hasRec, recJournalNum) == old(recHas(p.hasRec, recJournalNum)) && p.hasRec == (old(p.hasRec) | (1 << recSeqNum))
 //@   modifies p.hasRec, p.seqNum
 //@ func (*DB).recoverJournal
-//@   props C04 C07 C08
+//@   props C04 C07 C08 C01
 //@   at call (*session).markFileNum#1
-//@     assert [C04:highest-replayed-journal-number-is-retired] fds[len(fds)-1].Num < db.s.stNextFileNum
+//@     assert [C01,C04:highest-replayed-journal-number-is-retired] fds[len(fds)-1].Num < db.s.stNextFileNum
 //@   at before call (*session).commit#1
-//@     assert [C04:recovery-commit-carries-numbers] recHas(rec.hasRec, recJournalNum) && recHas(rec.hasRec, recSeqNum) && rec.journalNum == fd.Num && rec.seqNum == db.seq
+//@     assert [C01,C04:recovery-commit-carries-numbers] recHas(rec.hasRec, recJournalNum) && recHas(rec.hasRec, recSeqNum) && rec.journalNum == fd.Num && rec.seqNum == db.seq
 //@   at before call (*session).commit#2
-//@     assert [C04:recovery-commit-carries-numbers] recHas(rec.hasRec, recJournalNum) && recHas(rec.hasRec, recSeqNum) && rec.journalNum == db.journalFd.Num && rec.seqNum == db.seq
+//@     assert [C01,C04:recovery-commit-carries-numbers] recHas(rec.hasRec, recJournalNum) && recHas(rec.hasRec, recSeqNum) && rec.journalNum == db.journalFd.Num && rec.seqNum == db.seq
 //@   at before call storage.Storage.Remove#1
-//@     assert [C04,C07,C08:journal-removed-only-after-its-commit] lastok("(*session).commit") > last("decodeBatchToMem")
+//@     assert [C01,C04,C07,C08:journal-removed-only-after-its-commit] lastok("(*session).commit") > last("decodeBatchToMem")
 //@   at before call storage.Storage.Remove#2
-//@     assert [C04,C07,C08:journal-removed-only-after-its-commit] lastok("(*session).commit") > last("decodeBatchToMem")
+//@     assert [C01,C04,C07,C08:journal-removed-only-after-its-commit] lastok("(*session).commit") > last("decodeBatchToMem")
 
 // ---------------------------------------------------------------------------
 // C06: the recorded smallest / largest keys of a table are its first and last appended keys.
@@ -1087,11 +1087,11 @@ package leveldb
 // number order (sortFds: trusted, and the filter loop keeps the order: not proved here), so retiring the number of
 // the last one retires them all.
 //@ func (*session).markFileNum
-//@   props C04 C19
+//@   props C04 C19 C01
 //@   safety off
 //@   loop 1
-//@     invariant [C04,C19:never-goes-down] s.stNextFileNum >= old(s.stNextFileNum)
-//@   ensures [C04,C19:number-is-retired] s.stNextFileNum > num && s.stNextFileNum >= old(s.stNextFileNum)
+//@     invariant [C01,C04,C19:never-goes-down] s.stNextFileNum >= old(s.stNextFileNum)
+//@   ensures [C01,C04,C19:number-is-retired] s.stNextFileNum > num && s.stNextFileNum >= old(s.stNextFileNum)
 
 // ---------------------------------------------------------------------------
 // C20: buffers do not cross the API boundary.
